@@ -6,6 +6,7 @@ import Ogen.RegexConvert_feasibility
 import Ogen.JsonEqualDriver
 import Ogen.IntRoundTrip_proof
 import Ogen.RouterDriver
+import Ogen.SecurityHandler_proof
 
 /-! Line-protocol driver over all executable models: `<model> <payload>` per line, one
     canonical output line per input line. Core-only (no Mathlib) so it links natively. -/
@@ -37,6 +38,8 @@ def dispatch (line : String) : String :=
     | "ufmt" => IntRT.ufmtLine payload
     | "iparse" => IntRT.iparseLine payload
     | "bparse" => IntRT.bparseLine payload
+    | "sec" => Sec.secLine payload
+    | "bitset" => Sec.bitsetLine payload
     | "jeq" => JEqDrv.runLine payload
     | "enum" => JEqDrv.enumLine payload
     | _ => "bad-model"
